@@ -68,6 +68,8 @@ def build_classes(desc):
                 ns[a["name"]] = Attr(default_factory=list)
             elif f == "property":
                 ns[a["name"]] = property(lambda self: 1)
+        for rd in cd.get("redefaults", []):
+            ns[rd["name"]] = rd["default"]  # `name = value` without annotation: only the default of an inherited attribute changes
         ns["__annotations__"] = ann
         cls = type(cd["name"], (env[cd["base"]],) if cd.get("base") else (), ns)
         kw = {"bootstrap": True}
@@ -83,23 +85,38 @@ def build_classes(desc):
 
 def prepare(desc):
     """resolve inheritance inside a description (idempotent): inherited attributes in the parent's
-    order, effective key, inherited overflow attribute"""
+    order, effective key, inherited overflow attribute.  A subclass may (a) re-assign the default of an
+    inherited attribute (`"redefaults": [{"name", "default"}]`, class body `name = value`): the attribute keeps
+    its place, its owner and every option its owner DECLARED (init=False stays init=False), only the default
+    changes; (b) re-annotate an inherited attribute (same name in its own "attrs"): a new declaration owned by
+    the subclass that keeps the inherited place in the attribute order"""
     by_name = {}
     for cd in desc:
         if cd.get("base"):
             par = by_name[cd["base"]]
-            cd["_inherited"] = par.get("_inherited", []) + par["attrs"]
+            inh = [dict(a) for a in all_attrs(par)]
+            for rd in cd.get("redefaults", []):
+                for a in inh:
+                    if a["name"] == rd["name"]:
+                        a["form"] = "noinit" if a.get("form", "none") == "noinit" else "value"
+                        a["default"] = rd["default"]
+            cd["_inherited"] = inh
             cd["_effkey"] = cd["key"] if "key" in cd else par.get("_effkey")
             cd["_effoverflow"] = cd.get("overflow") or par.get("_effoverflow")
         else:
             cd["_inherited"] = []
             cd["_effkey"] = cd.get("key")
             cd["_effoverflow"] = cd.get("overflow")
+        own = {a["name"]: a for a in cd["attrs"]}
+        inh_names = {a["name"] for a in cd["_inherited"]}
+        cd["_all"] = [own.get(a["name"], a) for a in cd["_inherited"]] + [a for a in cd["attrs"] if a["name"] not in inh_names]
         by_name[cd["name"]] = cd
     return desc
 
 
 def all_attrs(cd):
+    if "_all" in cd:
+        return cd["_all"]
     return cd.get("_inherited", []) + cd["attrs"]
 
 
@@ -577,8 +594,160 @@ def effects_for(env, by_name, cd, cls, mname, pat, kind, adv):
     return out
 
 
+# ------------------------------------------------------------------ pairs of advertised parameters on the real methods
+DELTA = 100000
+
+
+def shift(v):
+    """what the attribute transformers used below make of a value"""
+    if isinstance(v, int) and not isinstance(v, bool):
+        return v + DELTA
+    if isinstance(v, str) and v[:1] == "s" and v[1:].isdigit():
+        return f"s{int(v[1:]) + DELTA}"
+    return v
+
+
+def judged_attrs(target_cd):
+    """attributes whose value tells what happened to an object: init-enabled int/str attributes that are neither
+    the key, the overflow attribute, private nor masked by a property"""
+    return [a["name"] for a in all_attrs(target_cd)
+            if a["ty"] in ("int", "str") and a.get("form", "none") in ("none", "value") and not a["name"].startswith("_")
+            and a["name"] not in (eff_key(target_cd), eff_overflow(target_cd), "kwargs")]
+
+
+def pair_effects(env, by_name, cd, cls, mname, pat, kind, adv):
+    """The value-carrying positional parameter of a helper (`_transform`, `_new_value`, `_new_item`) handed over TOGETHER
+    with nested-attribute keywords, on the real method, for: the top-level `transform`; `with_/update_/transform_<attr>`
+    of a nested spec attribute; `update_/transform_<item>` of List/Dict/KeyedList/KeyedSet of spec elements (on an
+    element that exists).  Documented order (mutate_value): the new value / the result of `_transform` first, then the
+    keywords on top of it.  Every plan is run alone (positional only; keywords only) and as pair / triple.  Transformers
+    are not constant (`old -> old + DELTA`), so the expected attribute value also says WHICH object they were applied to.
+    Result: effect entries `(ncls, [(keyword, expected, in __dict__, None)], label)`; attributes not named by a keyword
+    are listed with the value they must keep (that of the positional value's object, or the old one)."""
+    adv_names = [p[0] for p in adv]
+    target_cd, mode, op, attr = None, None, None, None
+    if mname == "transform" and not isinstance(pat, tuple):
+        target_cd, mode, op = cd, "top", "transform"
+    elif isinstance(pat, tuple):
+        attr = pat[1]
+        a = next((x for x in cd["attrs"] if x["name"] == attr), None)
+        if a is not None and pat[0] in ("update", "transform"):
+            base, _, ref = a["ty"].partition(":")
+            if base in ("list_nested", "dict_nested", "klist", "kset"):
+                target_cd, mode, op = by_name[ref], base, pat[0]
+    elif "_" in mname and mname.split("_", 1)[0] in ("with", "update", "transform"):
+        attr = mname.split("_", 1)[1]
+        a = next((x for x in cd["attrs"] if x["name"] == attr), None)
+        if a is not None and a["ty"].startswith("nested:"):
+            target_cd, mode, op = by_name[a["ty"].partition(":")[2]], "attr", mname.split("_", 1)[0]
+    if target_cd is None or cd.get("frozen") and mode != "top":
+        return []
+    tn = ncls_of(target_cd)
+    tcls = env[target_cd["name"]]
+    tkey = eff_key(target_cd)
+    judged = [k for k in judged_attrs(target_cd) if k in adv_names]
+    if not judged:
+        return []
+    if tkey and mode in ("klist", "kset") and next(x["ty"] for x in all_attrs(target_cd) if x["name"] == tkey) != "str":
+        return []
+    counter = [5000]
+
+    def values():
+        out = {}
+        for k in judged:
+            counter[0] += 1
+            out[k] = typed_value(target_cd, k, counter[0])
+        return out
+
+    def build(vals, keyval):
+        return tcls(**vals, **({tkey: keyval} if tkey else {}))
+
+    def keyval(i):
+        if not tkey:
+            return None
+        ty = next(x["ty"] for x in all_attrs(target_cd) if x["name"] == tkey)
+        return f"s{900 + i}" if ty == "str" else 900 + i
+
+    # plans: (positional value given?, keywords)
+    plans = [(True, [])]
+    for k in judged[:3]:
+        plans += [(False, [k]), (True, [k])]
+    for i, k1 in enumerate(judged[:3]):
+        for k2 in judged[i + 1:3]:
+            plans += [(True, [k1, k2]), (False, [k1, k2])]
+    out = []
+    for seq, (positional, ks) in enumerate(plans):
+        if op == "with" and not positional and mode == "attr":
+            continue  # with_<attr>(**kw) alone: constructor path, covered by effects_for
+        init, given = values(), values()
+        inplace = seq % 3 == 2 and not cd.get("frozen") and not target_cd.get("frozen")
+        ctl = {"_inplace": True} if inplace else {}
+        calls, expected = [], {}
+        label = f"{mname}({'<positional>, ' if positional else ''}{', '.join(ks)}{', _inplace=True' if inplace else ''})"
+        try:
+            if op == "transform":
+                def T(old, given=given):
+                    calls.append("T")
+                    return build(given, getattr(old, tkey) if tkey else None)
+                kw = {k: (lambda old, k=k: (calls.append(k), shift(old))[1]) for k in ks}
+                src = given if positional else init
+                expected = {k: (shift(src[k]) if k in ks else src[k]) for k in judged}
+                pos = [T] if positional else []
+            else:
+                kw = {}
+                for k in ks:
+                    counter[0] += 1
+                    kw[k] = typed_value(target_cd, k, counter[0])
+                src = given if positional else init
+                expected = {k: (kw[k] if k in ks else src[k]) for k in judged}
+                pos = None  # built below (needs the element's key)
+            if mode == "top":
+                recv = build(init, keyval(0))
+                target = recv.transform(*pos, **kw, **ctl)
+            elif mode == "attr":
+                recv = getattr(make_instance(cls, cd), "with_" + attr)(build(init, keyval(0)))
+                if pos is None:
+                    pos = [build(given, keyval(1))] if positional else []
+                target = getattr(getattr(recv, mname)(*pos, **kw, **ctl), attr)
+            else:
+                e0, e1 = build(values(), keyval(0)), build(init, keyval(1))
+                coll = {"ka": e0, "kb": e1} if mode == "dict_nested" else [e0, e1]
+                recv = getattr(make_instance(cls, cd), "with_" + attr)(coll)
+                if pos is None:
+                    pos = [build(given, keyval(1))] if positional else []
+                if mode == "dict_nested":
+                    sel = "kb"
+                elif mode == "kset" or (mode == "klist" and seq % 2 == 0):
+                    sel = keyval(1)
+                else:
+                    sel = 1
+                    if mode == "klist" or seq % 2:
+                        ctl["_by_index"] = True
+                res = getattr(getattr(recv, mname)(sel, *pos, **kw, **ctl), attr)
+                if mode == "dict_nested":
+                    target = res["kb"]
+                elif mode == "kset":
+                    target = next(x for x in res if getattr(x, tkey) == keyval(1))
+                else:
+                    target = list(res)[1]
+            d = object.__getattribute__(target, "__dict__")
+            obs = [(k, enc_obs(v), enc_obs(d.get(k)), None) for k, v in expected.items()]
+            if op == "transform" and sorted(calls) != sorted((["T"] if positional else []) + ks):
+                # each supplied function is applied exactly once
+                label += f" functions applied: {calls}"
+                if all(o[1] == o[2] for o in obs):
+                    obs.append(("_transform", 1, None, None))
+        except BaseException as e:
+            if isinstance(e, (KeyboardInterrupt, SystemExit)):
+                raise
+            obs = [(k, enc_obs(expected[k]) if k in expected else 0, None, None) for k in (ks or judged[:1])]
+            label += f" raised {type(e).__name__}: {str(e)[:120]}"
+        out.append((tn, obs, label))
+    return out
+
+
 def c_effect(e):
-    tn, obs = e
+    tn, obs = e[0], e[1]
     n = c_ncls(tn)[len("(Some "):-1]
     return "(%s, %s)" % (n, clist(obs, lambda o: f"({cs(o[0])}, {cz(o[1])}, {copt(o[2], cz)}, {copt(o[3], cz)})"))
 
@@ -608,6 +777,7 @@ def cases_for(desc, only=None):
             calls = gen_calls(adv, extra)
             obs = run_calls(f, inst, adv, calls)
             effects = effects_for(env, by_name, cd, cls, mname, pat, kind, adv)
+            effects += pair_effects(env, by_name, cd, cls, mname, pat, kind, adv)
             out.append({"cls": cd["name"], "method": mname, "kind": kind, "nested": nested, "adv": adv,
                         "real": real, "impl": impl_ps, "obs": obs, "effects": effects})
     return out
@@ -755,6 +925,32 @@ FIXED.append([
                                   {"name": "plain", "ty": "nested:Plain"}, {"name": "many", "ty": "list_nested:Unkeyed"},
                                   {"name": "byname", "ty": "dict_nested:Rekeyed"}, {"name": "keyed", "ty": "klist:Plain"}]},
 ])
+# spec subclasses that re-assign the default of an inherited attribute (`token = 7`: the declaration of the owner, in
+# particular init=False, stays in force) or re-annotate it (a new declaration: init-enabled again), chains of them,
+# the same under an overflow attribute, and a class holding them (nested, list and dict elements)
+def _iv(name, default, form="value", ty="int"):
+    a = {"name": name, "ty": ty, "form": form}
+    if default is not None:
+        a["default"] = default
+    return a
+
+
+FIXED.append([
+    {"name": "RBase", "attrs": [_iv("a", 51), _iv("token", 52, "noinit"), _iv("req", None, "none"), _iv("s", None, "none", "str")]},
+    {"name": "RPlain", "base": "RBase", "attrs": [_iv("b", 53)]},
+    {"name": "RChild", "base": "RBase", "attrs": [_iv("b", 57)],
+     "redefaults": [{"name": "token", "default": 54}, {"name": "a", "default": 55}, {"name": "req", "default": 56}]},
+    {"name": "RAnn", "base": "RBase", "attrs": [_iv("token", 58), _iv("c", 59, "noinit")]},
+    {"name": "RGrand", "base": "RChild", "attrs": [_iv("g", 61)], "redefaults": [{"name": "token", "default": 60}]},
+    {"name": "RGrand2", "base": "RAnn", "attrs": [_iv("g", 66)],
+     "redefaults": [{"name": "token", "default": 67}, {"name": "c", "default": 68}]},
+    {"name": "ROv", "overflow": "extra", "attrs": [_iv("a", 62), _iv("hid", 63, "noinit")]},
+    {"name": "ROvChild", "base": "ROv", "attrs": [_iv("b", 65)], "redefaults": [{"name": "hid", "default": 64}]},
+    {"name": "RHolder", "attrs": [{"name": "child", "ty": "nested:RChild"}, {"name": "ann", "ty": "nested:RAnn"},
+                                   {"name": "grand", "ty": "nested:RGrand"}, {"name": "grand2", "ty": "nested:RGrand2"},
+                                   {"name": "ovc", "ty": "nested:ROvChild"}, {"name": "kids", "ty": "list_nested:RChild"},
+                                   {"name": "bykey", "ty": "dict_nested:RGrand"}]},
+])
 NAMES = ["a", "b", "p", "q", "x", "y", "items", "values", "name", "size", "kwargs", "flags", "opts", "node", "key_", "v"]
 
 
@@ -803,6 +999,35 @@ def random_desc(rng, nclasses):
                 cd["key"] = None
             elif mode == "own":
                 cd["key"] = rng.choice(own)
+            desc.append(cd)
+            continue
+        rparents = [c for c in desc if not c.get("frozen") and not any(a["name"].startswith("_") for a in c["attrs"])
+                    and any(a["ty"] == "int" and a.get("form", "none") in ("none", "value", "noinit") for a in c["attrs"])]
+        if rparents and rng.random() < 0.3:
+            # a spec subclass that re-assigns defaults of inherited int attributes (init=False ones preferred) and may
+            # re-annotate one; key / overflow attribute as inherited
+            par = rng.choice(rparents)
+            view = []
+            c_ = par
+            while c_ is not None:
+                view = c_["attrs"] + view
+                c_ = next((x for x in desc if x["name"] == c_.get("base")), None)
+            taken = {a["name"] for a in view}
+            ints = [a for a in view if a["ty"] == "int" and a.get("form", "none") in ("none", "value", "noinit")
+                    and not a["name"].startswith("_")]
+            ints.sort(key=lambda a: a.get("form") != "noinit")
+            red, rest = ints[:rng.randint(1, 2)], ints[2:]
+            cd["base"] = par["name"]
+            cd["redefaults"] = []
+            for a in red:
+                dflt[0] += 1
+                cd["redefaults"].append({"name": a["name"], "default": dflt[0]})
+            attrs = [a for a in attrs if a["name"] not in taken and a["name"] != "_hid"]
+            pkey = next((x.get("key") for x in desc if x["name"] == par["name"]), None)
+            if rest and rng.random() < 0.5 and rest[0]["name"] != pkey and not par.get("base"):
+                dflt[0] += 1
+                attrs.append({"name": rest[0]["name"], "ty": "int", "form": rng.choice(["value", "noinit"]), "default": dflt[0]})
+            cd["attrs"] = attrs or [{"name": "extra_attr", "ty": "int", "form": "value", "default": 19}]
             desc.append(cd)
             continue
         r = rng.random()
@@ -857,7 +1082,7 @@ def main(tier, replay=None):
     def call_sig(c, call, code, where):
         detail = {}
         if call is not None and call[0] == "E":
-            tn, obs_ = call[2]
+            tn, obs_ = call[2][0], call[2][1]
             lost = [k for k, v, da, do in obs_ if v not in (da, do)]
             detail = {"kind": "effect_lost", "keyword": ",".join(lost) or ",".join(k for k, *_ in obs_), "npos": 0}
         elif call is not None:
@@ -941,7 +1166,8 @@ def main(tier, replay=None):
                 what = (f"{c['cls']}.{c['method']}{'(' + ', '.join(f'{p[0]}' for p in c['adv']) + ')'}: "
                         + ("violates its advertised signature" if code == 2 else "differs from the model")
                         + (f" [an advertised keyword accepted by the real method did not reach the attribute / overflow "
-                           f"dictionary with the value given: (keyword, given, in __dict__, in overflow dict) = {call[2][1]}]"
+                           f"dictionary with the value given: (keyword, given, in __dict__, in overflow dict) = {call[2][1]}"
+                           f"{' call: ' + call[2][2] if len(call[2]) > 2 else ''}]"
                            if call is not None and call[0] == "E" else
                            f" [{sig['where']}] call={None if call is None else (call[0], call[1], call[2], call[3], call[4])}"))
                 chk.violation(what, {"desc": descs[owner[i]], "cls": c["cls"], "method": c["method"], "code": code,
